@@ -131,7 +131,7 @@ def render_structs(k, it: Item, meta, cfg, strum_path="strum"):
         ''' % {"sp": strum_path, "ty": ty}
     if "EnumCount" in derives:
         arms["count"] = 'format!("{}", <%s as %s::EnumCount>::COUNT)' % (ty, strum_path)
-    if "VariantNames" in derives:
+    if "VariantNames" in derives or "EnumVariantNames" in derives:       # (EnumVariantNames: the deprecated spelling of the same derive)
         arms["names"] = '''
             let v: Vec<String> = <%s as %s::VariantNames>::VARIANTS.iter().map(|s| xs(s)).collect();
             format!("[{}]", v.join(";"))
